@@ -72,6 +72,12 @@ func (e *Engine) uniq(name string) string {
 
 func (e *Engine) freshVar(name string, w int) *Term {
 	name = e.uniq(name)
+	if fixed, ok := e.run.Fixed[name]; ok {
+		// concrete mode (selftest / debugging): the input is a constant
+		k := e.K(w, fixed)
+		e.path.Inputs = append(e.path.Inputs, inputRec{name, w, k})
+		return k
+	}
 	v := e.tf.Var(name, w)
 	e.vars = append(e.vars, v)
 	e.path.Inputs = append(e.path.Inputs, inputRec{name, w, v})
@@ -106,7 +112,12 @@ func init() {
 			if !lo.IsConst() || !hi.IsConst() {
 				e.unsupported("Choose with symbolic range")
 			}
-			v := e.chooseInt(int(int64(lo.C)), int(int64(hi.C)))
+			var v int
+			if fixed, ok := e.run.Fixed[name]; ok {
+				v = int(int64(fixed))
+			} else {
+				v = e.chooseInt(int(int64(lo.C)), int(int64(hi.C)))
+			}
 			e.path.Choices = append(e.path.Choices, choiceRec{name, v})
 			return e.K(64, uint64(int64(v)))
 		},
@@ -254,12 +265,15 @@ func init() {
 	}
 }
 
-// strconv.ParseFloat: uninterpreted. The result is a fresh value and a fresh
-// success flag; the text handed over is recorded so a harness can inspect it
-// through rt.LastParseFloatArg.
+// strconv.ParseFloat: the syntax check is modelled by rt.FloatSyntax (Go code,
+// executed symbolically); the value is uninterpreted but functional: the same
+// text (the same byte terms) gives the same result variable, so "the library
+// hands exactly this text to ParseFloat and reports its result unchanged" is
+// decidable while correct rounding stays trusted strconv.
 func stubParseFloat(e *Engine, fn *ssa.Function, a []Val) Val {
 	s := a[0].(Slice)
-	e.path.ParseFloatArgs = append(e.path.ParseFloatArgs, e.sliceTerms(s))
+	ts := e.sliceTerms(s)
+	e.path.ParseFloatArgs = append(e.path.ParseFloatArgs, ts)
 	// a concrete literal is parsed natively (the stub is exact in that case)
 	if str, ok := e.tryGoString(s); ok {
 		if bs, isC := a[1].(*Term); isC && bs.IsConst() {
@@ -270,12 +284,45 @@ func stubParseFloat(e *Engine, fn *ssa.Function, a []Val) Val {
 			return Tuple{e.K(64, f), Iface{}}
 		}
 	}
-	v := e.internalVar("parsefloat", 64)
-	okb := e.internalVar("parsefloat_ok", 0)
-	if e.decide(okb) {
-		return Tuple{v, Iface{}}
+	fail := func() Val { return Tuple{e.K(64, 0), e.opaqueError("strconv.ParseFloat")} }
+	rtp := e.prog.ImportedPackage(rtPkg)
+	cls, big := 2, false
+	if rtp != nil && rtp.Func("FloatSyntax") != nil {
+		r := e.call(rtp.Func("FloatSyntax"), []Val{s}, nil).(Tuple)
+		cls = e.concretize(r[0].(*Term), "FloatSyntax class")
+		big = e.decide(r[1].(*Term))
 	}
-	return Tuple{e.K(64, 0), e.opaqueError("strconv.ParseFloat")}
+	if cls == 0 {
+		return fail()
+	}
+	var key strings.Builder
+	for _, t := range ts {
+		if t.IsConst() {
+			fmt.Fprintf(&key, "c%d,", t.C)
+		} else {
+			fmt.Fprintf(&key, "t%d,", t.id)
+		}
+	}
+	if e.path.pfMemo == nil {
+		e.path.pfMemo = map[string]*Term{}
+	}
+	v := e.path.pfMemo[key.String()]
+	if v == nil {
+		v = e.internalVar("parsefloat", 64)
+		e.path.pfMemo[key.String()] = v
+	}
+	if cls == 2 || big {
+		// not decided by the syntax model: unknown outcome, but the same for the same text
+		okv := e.path.pfMemo["ok:"+key.String()]
+		if okv == nil {
+			okv = e.internalVar("parsefloat_ok", 0)
+			e.path.pfMemo["ok:"+key.String()] = okv
+		}
+		if !e.decide(okv) {
+			return fail()
+		}
+	}
+	return Tuple{v, Iface{}}
 }
 
 // strconv.AppendFloat: concrete floats are formatted natively; symbolic ones are
